@@ -34,7 +34,7 @@ func init() {
 	c05.Random = func(r *core.Run, k int) (Action, []Action) { return txnRandom(r, k, "dml") }
 	c08 := mk("C08", []string{"failure causes modelled: division by zero at one row of a multi-row UPDATE, wrong row length, unknown field after RENAME/DROP, duplicate column, existing file, missing file, failing DEFAULT expression, ambiguous join update, CREATE TABLE AS SELECT with wrong names / failing query, COMMIT that cannot encode a changed file, one UPDATE of two tables failing in the second"}, "TxnGen_create.cfg", "TxnGen_commitfail.cfg", "TxnGen_temp.cfg", "TxnGen_two.cfg", "TxnGen_typed.cfg")
 	c08.Random = func(r *core.Run, k int) (Action, []Action) { return txnRandom(r, k, "fail") }
-	c20 := mk("C20", []string{"the environment is a second real csvq transaction in the same OS process with a 50 ms wait timeout; reads by identifier, sub-query, aggregate and table function (f2 carries a byte order mark)"}, "TxnGen_reads.cfg")
+	c20 := mk("C20", []string{"the environment is a second real csvq transaction in the same OS process with a 50 ms wait timeout; reads by identifier, sub-query, aggregate and table function (f2 carries a byte order mark)"}, "TxnGen_reads.cfg", "TxnGen_case.cfg")
 	c20.Random = func(r *core.Run, k int) (Action, []Action) { return txnRandom(r, k, "env") }
 	// the poison switch of lib/value (build tag verif): a value handed back to the pool is never re-issued but marked, so
 	// that a table cell which some statement discarded shows at the next read instead of when the pool happens to recycle it
@@ -267,6 +267,8 @@ func txnSQL(a Action) string {
 			return fmt.Sprintf("INSERT INTO %s VALUES (%d, (SELECT v FROM %s LIMIT 1)), (%d);", t, k, tname(aStr(a, "u")), k+1)
 		}
 		return fmt.Sprintf("INSERT INTO %s VALUES (%d, (SELECT v FROM %s LIMIT 1));", t, k, tname(aStr(a, "u")))
+	case "selectcase":
+		return "SELECT * FROM `" + strings.ToUpper(aStr(a, "t")[:1]) + aStr(a, "t")[1:] + ".csv`;"
 	case "selectinline":
 		return "SELECT * FROM CSV_INLINE(',', " + t + ");"
 	case "setenc":
@@ -411,7 +413,7 @@ func txnExec(p *sut.Proc, a Action) Out {
 			return Out{K: "val", Vals: v[2:]}
 		}
 		return Out{K: "val", Vals: v}
-	case "select", "selectsub", "selectfn", "selectinline":
+	case "select", "selectsub", "selectfn", "selectinline", "selectcase":
 		r := p.Exec(txnSQL(a))
 		if r.Err != "" {
 			return Out{K: "err", E: errClass(r), Vals: []string{}}
